@@ -33,6 +33,8 @@ pub fn port_of(a: &SocketAddr) -> u16 {
 /// address as a small number for the event trace: the port for simulator addresses ([::]:port), otherwise a number
 /// above 20000 derived from all its bytes (so that a foreign address is never mistaken for a simulator address)
 pub fn tport(a: &SocketAddr) -> u32 {
+    // (an IPv4 address and its IPv4-mapped IPv6 form are the same address to the node: it maps every address it dials)
+    let a = &crate::net::mapped_addr(*a);
     if *a == addr_of(a.port()) {
         a.port() as u32
     } else {
@@ -240,7 +242,7 @@ impl<P: Protocol> Sim<P> {
         let (own, trusted) = Self::key_labels(&cfg);
         let (learn, bc) = self.nodes[i].node.verif_flags();
         let plain = cfg.crypto.algorithms.iter().any(|a| a.eq_ignore_ascii_case("plain"));
-        let adv: Vec<u16> = cfg.advertise_addresses.iter().filter_map(|a| a.parse::<SocketAddr>().ok()).map(|a| port_of(&a)).collect();
+        let adv: Vec<u32> = cfg.advertise_addresses.iter().filter_map(|a| a.parse::<SocketAddr>().ok()).map(|a| tport(&crate::net::mapped_addr(a))).collect();
         let post = self.post(i);
         self.tev(json!({"op":"boot","n":i + 1,"inc":self.nodes[i].inc,"T":cfg.peer_timeout,"st":cfg.switch_timeout,"ka":cfg.keepalive.map(|k| k as i64).unwrap_or(-1),"fresh":true,
                         "claims":cfg.claims,"learn":learn,"bc":bc,"mode":format!("{:?}", cfg.mode).to_lowercase(),"dev":if cfg.device_type == crate::device::Type::Tap { "tap" } else { "tun" },"key":own,"trusted":trusted,"plain":plain,"adv":adv,"nat":self.nodes[i].nat,"post":post}));
